@@ -402,6 +402,7 @@ func (s *Sim) handle(w http.ResponseWriter, r *http.Request) {
 	case "multicall":
 		var req struct {
 			Calls []struct {
+				Group       int    `json:"group"`
 				Address     string `json:"address"`
 				MethodIndex int    `json:"methodIndex"`
 			} `json:"calls"`
@@ -413,6 +414,17 @@ func (s *Sim) handle(w http.ResponseWriter, r *http.Request) {
 		}
 		detail = addr
 		status, body = s.multicall(addr)
+		// a contract lives in the world state of one group (the last byte of its id): asked about in any other group, it does
+		// not exist there
+		tokMu.Lock()
+		id := TokenByAddress[addr]
+		tokMu.Unlock()
+		if len(id) == 64 && len(req.Calls) > 0 {
+			if g, err := strconv.ParseUint(id[62:], 16, 8); err == nil && int(g) != req.Calls[0].Group {
+				detail += fmt.Sprintf(" (asked in group %d, contract is in group %d)", req.Calls[0].Group, g)
+				status, body = 200, map[string]interface{}{"results": []interface{}{failed(), failed(), failed()}}
+			}
+		}
 	default:
 		status, body = 404, map[string]interface{}{"detail": "unknown endpoint"}
 	}
